@@ -335,7 +335,11 @@ func (s *State) UnmarshalRef(entry string, b, h, dh int) V {
 	return s.emit(ev)
 }
 
-func (s *State) Datagram(b, h int) V {
+func (s *State) Datagram(b, h int) V { return s.DatagramParts(b, h, nil) }
+
+// DatagramParts decodes buffer b; parts names the handles that hold the
+// results of decoding each frame of b on its own (for the locality check).
+func (s *State) DatagramParts(b, h int, parts []int) V {
 	orig := s.Buf[b]
 	in := append([]byte(nil), orig...)
 	var ps []rtcp.Packet
@@ -352,7 +356,13 @@ func (s *State) Datagram(b, h int) V {
 	} else {
 		delete(s.Pk, h)
 	}
-	return s.emit(decodeEvent("datagram", "DGRAM", b, h, in, orig, pan, msg, err, alloc, out))
+	ev := decodeEvent("datagram", "DGRAM", b, h, in, orig, pan, msg, err, alloc, out)
+	pl := make(L, len(parts))
+	for i, p := range parts {
+		pl[i] = p
+	}
+	ev["parts"] = pl
+	return s.emit(ev)
 }
 
 // UnitDecode runs an exported sub-structure decoder on buffer b.
